@@ -663,6 +663,15 @@ impl Context {
                     data.type_id.to_error_type(),
                 ));
             }
+            // A variable may not share its name with a function in the same scope either
+            // The function would be hidden behind the variable
+            Some(VariableExpression::Function(UnresolvedFunction { ref overloads })) => {
+                return Err(TyperError::ValueAlreadyDefined(
+                    data.name.clone(),
+                    ErrorType::Function(overloads.clone()),
+                    data.type_id.to_error_type(),
+                ));
+            }
             _ => {}
         };
 
